@@ -369,6 +369,40 @@ theorem step_pinv (cfg : Config S) (P : NodeId → Proto S σ) (w : World S σ)
         · exact finalise_pinv cfg P _ hs
         · exact hs
 
+theorem stepRaised_pinv (cfg : Config S) (P : NodeId → Proto S σ) (w : World S σ)
+    (hw : WInv w) (h : PInv w) : PInv (stepRaised cfg P w) := by
+  unfold stepRaised
+  split
+  · exact h
+  · have hi : WInv (if w.initialized then w else initialise cfg P w) ∧
+        PInv (if w.initialized then w else initialise cfg P w) := by
+      split
+      · exact ⟨hw, h⟩
+      · exact ⟨(initialise_inv cfg P w hw).1, initialise_pinv cfg P w h⟩
+    generalize (if w.initialized then w else initialise cfg P w) = w1 at hi
+    obtain ⟨hw1, h1⟩ := hi
+    simp only
+    split
+    · exact finalise_pinv cfg P w1 h1
+    · split
+      · exact h1
+      · rename_i e rest hq
+        exact execEv_popped_pinv cfg P e rest w1 h1 hq hw1
+
+theorem reachableT_pinv {cfg : Config S} (hdt : 0 ≤ cfg.dt) {P : NodeId → Proto S σ} {w : World S σ}
+    (h : ReachableT cfg P w) : PInv w := by
+  induction h with
+  | init => exact init_pinv cfg P
+  | @step w0 hr ih =>
+    have hw := reachableT_inv hdt hr
+    have hprep : WInv (prep cfg P w0) := by
+      unfold prep; split
+      · exact hw
+      · exact (initialise_inv cfg P w0 hw).1
+    exact step_pinv cfg P w0 hw ih hprep
+  | ext n p _ ih => exact runProg_pinv cfg n p _ ih
+  | raised hr ih => exact stepRaised_pinv cfg P _ (reachableT_inv hdt hr) ih
+
 theorem initWith_pinv (cfg : Config S) (P : NodeId → Proto S σ) (pre : List (NodeId × Prog S σ)) :
     PInv (initWith cfg P pre) :=
   initWith_induction (C := fun w => PInv w) (init_pinv cfg P) (fun n p w h => runProg_pinv cfg n p w h) pre
